@@ -145,7 +145,7 @@ class Interp:
         body = fn.body
         if body and isinstance(body[0], ast.Expr) and isinstance(body[0].value, ast.Constant) and isinstance(body[0].value.value, str):
             body = body[1:]
-        is_gen = any(isinstance(n, (ast.Yield, ast.YieldFrom)) for n in _walk_no_nested_defs(fn))
+        is_gen = getattr(self, "cm", None) is None and any(isinstance(n, (ast.Yield, ast.YieldFrom)) for n in _walk_no_nested_defs(fn))
         if is_gen:
             # generators are run eagerly: the call returns the list of yielded values
             self.yielded: Optional[List[Any]] = []
@@ -222,11 +222,23 @@ class Interp:
             if not self.truth(self.ev(st.test)):
                 raise AssertionFailed(norm(st))
         elif isinstance(st, ast.With):
-            for item in st.items:
-                v = self.ev(item.context_expr)
-                if item.optional_vars is not None:
-                    self.assign(item.optional_vars, v)
-            self.block(st.body)
+            entered: List[Any] = []
+            exc: Optional[BaseException] = None
+            try:
+                for item in st.items:
+                    v = self.ev(item.context_expr)
+                    if isinstance(v, Obj) and "__enter__" in v._attrs:
+                        entered.append(v)
+                        v = v._attrs["__enter__"]()
+                    if item.optional_vars is not None:
+                        self.assign(item.optional_vars, v)
+                self.block(st.body)
+            except BaseException as ex:
+                exc = ex
+                raise
+            finally:
+                for cm in reversed(entered):
+                    cm._attrs["__exit__"](exc if isinstance(exc, PyRaise) else None)
         elif isinstance(st, ast.Raise):
             if st.exc is None:
                 raise Unsupported(st, "(bare raise)")
@@ -235,9 +247,17 @@ class Interp:
             v = self.ev(st.exc)
             kind = v._kind if isinstance(v, Obj) else (norm(st.exc.func) if isinstance(st.exc, ast.Call) else "Exception")
             raise PyRaise(kind.split(".")[0] if isinstance(st.exc, ast.Call) and isinstance(st.exc.func, ast.Attribute) else kind, v)
+        elif isinstance(st, ast.Try) and st.finalbody:
+            inner = ast.Try(body=st.body, handlers=st.handlers, orelse=st.orelse, finalbody=[])
+            ast.copy_location(inner, st)
+            try:
+                if st.handlers:
+                    self.stmt(inner)
+                else:
+                    self.block(st.body)
+            finally:
+                self.block(st.finalbody)
         elif isinstance(st, ast.Try):
-            if st.finalbody:
-                raise Unsupported(st, "(try/finally)")
             try:
                 self.block(st.body)
             except PyRaise as pr:
@@ -331,6 +351,11 @@ class Interp:
             base = self.ev(e.value)
             if isinstance(base, Obj):
                 return base.get(e.attr, e)
+            if isinstance(base, ast.AST) or base is ast:
+                try:
+                    return getattr(base, e.attr)
+                except AttributeError:
+                    raise PyRaise("AttributeError", e.attr)
             if isinstance(base, Opaque):
                 if isinstance(e.value, ast.Name) and e.value.id[:1].isupper():
                     return Sym(f"{e.value.id}.{e.attr}")  # enum member / class constant
@@ -366,7 +391,11 @@ class Interp:
             out: Dict[Any, Any] = {}
             for k, v in zip(e.keys, e.values):
                 if k is None:
-                    raise Unsupported(e, "(dict unpacking)")
+                    d = self.ev(v)
+                    if not isinstance(d, dict):
+                        raise Unsupported(e, "(dict unpacking of a non-dict)")
+                    out.update(d)
+                    continue
                 out[self.ev(k)] = self.ev(v)
             return out
         if isinstance(e, ast.UnaryOp):
@@ -427,6 +456,15 @@ class Interp:
             return self.call(e)
         if isinstance(e, (ast.ListComp, ast.SetComp, ast.GeneratorExp, ast.DictComp)):
             return self.comp(e)
+        if isinstance(e, ast.Yield) and getattr(self, "cm", None) is not None:
+            cm = self.cm
+            cm.value = self.ev(e.value) if e.value is not None else None
+            cm.to_main.set()
+            cm.to_gen.wait()
+            cm.to_gen.clear()
+            if cm.resume_exc is not None:
+                raise cm.resume_exc
+            return None
         if isinstance(e, ast.Yield):
             if getattr(self, "yielded", None) is None:
                 raise Unsupported(e, "(yield outside a modelled generator)")
@@ -630,6 +668,8 @@ class Interp:
                 native = {"bool": bool, "int": int, "str": str, "list": list, "tuple": tuple, "dict": dict, "float": float, "set": set, "type": type}
                 if not isinstance(v0, (Obj, Opaque, Sym)) and all(norm(c) in native for c in classes0):
                     return any(isinstance(v0, native[norm(c)]) for c in classes0)
+                if isinstance(v0, Sym) and all(norm(c) in native for c in classes0):
+                    return False
             if nm == "isinstance" and len(e.args) == 2 and not isinstance(e.args[1], ast.Name):
                 v0 = self.ev(e.args[0])
                 if not isinstance(v0, (Obj, Opaque, Sym)):
@@ -675,6 +715,18 @@ class Interp:
                         return v(*self.elts(e.args), **{k.arg: self.ev(k.value) for k in e.keywords if k.arg})
                 return Opaque(meth)
             args = self.elts(e.args)
+            if recv is set and meth in ("intersection", "union") and all(isinstance(a, (set, frozenset)) for a in args) and args:
+                return getattr(set, meth)(*args)
+            if isinstance(recv, dict) and meth == "update" and len(args) == 1 and isinstance(args[0], dict):
+                recv.update(args[0])
+                return None
+            if isinstance(recv, list) and meth == "pop" and len(args) <= 1:
+                try:
+                    return recv.pop(*args)
+                except IndexError:
+                    raise PyRaise("IndexError", None)
+            if isinstance(recv, (set, frozenset)) and meth in ("union", "intersection", "difference", "issubset", "issuperset", "isdisjoint") and all(isinstance(a, (set, frozenset, dict, list, tuple)) for a in args):
+                return getattr(recv, meth)(*[set(a) for a in args])
             if isinstance(recv, set) and meth in ("add", "discard", "update"):
                 getattr(recv, meth)(*args)
                 return None
@@ -720,17 +772,74 @@ def call_def(self: "Interp", fn: ast.FunctionDef, args: List[Any], node: ast.AST
         if d is not None:
             env0[a.arg] = self.ev(d)
     if len(args) > len(names):
-        raise Unsupported(node, f"(arity of {fn.name})")
+        if fn.args.vararg is None:
+            raise Unsupported(node, f"(arity of {fn.name})")
+        env0[fn.args.vararg.arg] = tuple(args[len(names):])
+        args = args[: len(names)]
+    elif fn.args.vararg is not None:
+        env0[fn.args.vararg.arg] = ()
     env0.update(dict(zip(names, args)))
     env0.update(kwargs or {})
     missing = [a.arg for a in pos + fn.args.kwonlyargs if a.arg not in env0]
     if missing:
         raise Unsupported(node, f"(missing arguments {missing} for {fn.name})")
     sub = Interp(env0, self.effect_methods, tuple(self.syms), self.funcs, self.isinstance_hook, self.method_defs, self.module_defs, self.globals)
+    if any((isinstance(d, ast.Name) and d.id == "contextmanager") or (isinstance(d, ast.Attribute) and d.attr == "contextmanager") for d in fn.decorator_list):
+        return _context_manager(sub, fn)
     sub.steps = self.steps
     res = sub.run(fn)
     self.steps = sub.steps
     return res
+
+
+class _CM:
+    """A @contextmanager function of the model: its body runs in a helper thread up to
+    the yield, the with-body runs in the caller, then the body is resumed (an exception of
+    the with-body is raised at the yield so that finally blocks run)."""
+
+    def __init__(self, sub: "Interp", fn: ast.FunctionDef) -> None:
+        import threading
+
+        self.sub, self.fn = sub, fn
+        self.to_main, self.to_gen = threading.Event(), threading.Event()
+        self.value: Any = None
+        self.exc: Optional[BaseException] = None
+        self.resume_exc: Optional[BaseException] = None
+        self.done = False
+        self.thread = threading.Thread(target=self._run, daemon=True)
+
+    def _run(self) -> None:
+        try:
+            self.sub.cm = self  # type: ignore[attr-defined]
+            self.sub.run(self.fn)
+        except BaseException as e:  # noqa: BLE001
+            self.exc = e
+        finally:
+            self.done = True
+            self.to_main.set()
+
+    def enter(self) -> Any:
+        self.thread.start()
+        self.to_main.wait()
+        self.to_main.clear()
+        if self.done:
+            if self.exc is not None:
+                raise self.exc
+            raise ModelError(f"context manager {self.fn.name} did not yield")
+        return self.value
+
+    def exit(self, exc: Optional[BaseException]) -> None:
+        self.resume_exc = exc
+        self.to_gen.set()
+        self.to_main.wait()
+        self.thread.join()
+        if self.exc is not None and self.exc is not exc:
+            raise self.exc
+
+
+def _context_manager(sub: "Interp", fn: ast.FunctionDef) -> "Obj":
+    cm = _CM(sub, fn)
+    return Obj("ContextManager", __enter__=cm.enter, __exit__=cm.exit)
 
 
 Interp.call_def = call_def  # type: ignore[attr-defined]
